@@ -129,7 +129,12 @@ def make_symbolic(eng, name, spec, st, assumptions):
     if isinstance(spec, ListT):
         n = z3.Int(name + "#n")
         eng.lengths.append(n)
-        cell = {"n": n, "items": z3.Array(name + ".items", z3.IntSort(), zsort(spec.elem))}
+        if isinstance(spec.elem, (tuple, list)):
+            cell = {"n": n}
+            for j, es in enumerate(spec.elem):
+                cell[f"items{j}"] = z3.Array(f"{name}.items{j}", z3.IntSort(), zsort(es))
+        else:
+            cell = {"n": n, "items": z3.Array(name + ".items", z3.IntSort(), zsort(spec.elem))}
         st = St(st.env, {**st.heap, name: cell}, st.pc + [n >= 0], st.ghost)
         return Ref(name, "list"), st
     if isinstance(spec, OptT):
@@ -157,6 +162,14 @@ def make_symbolic(eng, name, spec, st, assumptions):
                 cell["#decl"][a] = sp
         st = St(st.env, {**st.heap, name: cell}, st.pc, st.ghost)
         return Ref(name, "obj"), st
+    if isinstance(spec, E.HeapT):
+        from .monitor import heap_facts
+        cell = {"inbox": z3.Array(name + ".inbox", z3.IntSort(), z3.BoolSort()),
+                "msgs": z3.Array(name + ".msgs", z3.IntSort(), V), "size": z3.Int(name + ".size")}
+        st = St(st.env, {**st.heap, name: cell}, st.pc, st.ghost)
+        for f in heap_facts(eng, cell):
+            st = st.assume(f)
+        return Ref(name, "msgheap"), st
     from .generators import IterT, make_iter
     if isinstance(spec, IterT):
         return make_iter(eng, name, spec, st)
